@@ -14,10 +14,14 @@ EXPLANATION = (
     "controlling edge); (ii) cached_paths grows only through merge_new_paths_algo, whose counting loop is bounded by the "
     "target count and whose truncations dominate the merge; (iii) both assignments of next_refetch in fetch_and_update are "
     "clamped from below by min_refetch_delay (origin-tree template) and the success case is min(interval, earliest expiry − "
-    "threshold); (iv) the configuration validator is called in MultiPathManager::new and controls its Ok exit."
+    "threshold); (iv) the configuration validator is called in MultiPathManager::new and controls its Ok exit; (v) issue "
+    "memory: the cached issue markers are never modified in place (only inserted in add_issue and removed in pop_front), "
+    "every insert is paired with a queue entry carrying the same id and the marker's timestamp, the insert is dominated by an "
+    "eviction loop that re-tests cache.len() >= max_entries after each pop_front, and the queue is compacted under a bound on "
+    "its own length."
 )
 RESIDUAL = ["liveness (never left without a path while one is known)", "numeric backoff ceiling",
-            "issue-cache size bound (stale FIFO entries: a history effect with no shape signature)"]
+            "issue-memory bound as a value over histories (decided only through the structural conditions IM1-IM4)"]
 ASSUMPTIONS = ["ScionPath::is_expired compares the path's expiry with the timestamp it is given"]
 TECHNIQUE = "MIR guarded-success and provenance templates on the release configuration"
 
@@ -178,3 +182,121 @@ def run(F, R, tier, cfg):
             R.ob("GS-validate", "validate(): Ok guarded by comparison of %s with %s" % (a, c2), ok, True)
             if not ok:
                 R.violation("GS-validate", "validate/%s-vs-%s" % (a, c2), "validator no longer compares %s with %s" % (a, c2), F.loc("scion_stack::path::manager::MultiPathManagerConfig::validate"))
+
+    issue_memory(F, R)
+
+
+PIM = "scion_stack::path::manager::PathIssueManager::"
+
+
+def _on_field(b, c, fld):
+    return bool(c.args) and ("field:" + fld) in tokens(b.origin(c.args[0]))
+
+
+def issue_memory(F, R):
+    """(v) issue memory bound — structural necessary conditions of `cache.len() <= max_entries` and a bounded queue:
+    IM1 cached markers are never modified in place (the queue entry carries the marker's timestamp and eviction matches on
+        it): the only mutators of `cache` are insert (add_issue) and the occupied-entry removal (pop_front);
+    IM2 every cache.insert is accompanied by a push_back of (id, marker.timestamp) onto the queue in the same function;
+    IM3 the insert is preceded by an eviction *loop*: a branch comparing cache.len() with max_entries that dominates the
+        insert and lies on a CFG cycle with the pop_front call (a single pop can hit the stale queue entry of a
+        re-reported issue and free nothing);
+    IM4 the queue itself is kept bounded: some queue-shrinking call (retain / pop_front / drain / truncate / clear) is
+        controlled by a branch on fifo_issues.len() and max_entries, or by the result of cache.insert (eager purge)."""
+    fns = [p for p in F.all_body_paths("scion_stack") if p.startswith(PIM) and not T.is_test_support(p)]
+    if not fns:
+        R.anchor_missing(PIM + "*")
+        return
+    add, pop = PIM + "add_issue", PIM + "pop_front"
+    for x in (add, pop):
+        if not F.has_body(x):
+            R.anchor_missing(x)
+            return
+    MUT = ("::get_mut", "::values_mut", "::iter_mut", "::entry", "::insert", "::remove", "::remove_entry", "::retain", "::clear", "::drain",
+           "::extend", "::get_many_mut", "::get_disjoint_mut", "::try_insert", "::extract_if")
+    n_mut = 0
+    for p in fns:
+        b = F.body(p)
+        R.fn(p)
+        for c in b.calls:
+            if c.indirect or not _on_field(b, c, "cache") or "HashMap" not in c.decl:
+                continue
+            nm = "::" + c.decl.split("::")[-1]
+            if nm not in MUT:
+                continue
+            n_mut += 1
+            ok = (p == add and nm == "::insert") or (p == pop and nm == "::entry")
+            R.ob("IM1-cache-mutators", "%s on cache in %s" % (nm, short(p)), ok, True, {"rule": "IM1", "fn": p, "loc": c.span.loc, "call": short(c.decl), "holds": ok})
+            if not ok:
+                R.violation("IM1-cache-mutators", "%s/%s" % (p, nm),
+                            "the issue cache is modified by %s in %s: a marker changed in place no longer matches the timestamp of its "
+                            "queue entry, so it is never evicted and the cache outgrows max_entries" % (short(c.decl), short(p)), c.span.loc)
+    R.floor("IM1-cache-mutators", n_mut, 2, "mutating HashMap calls on PathIssueManager.cache (insert, entry)")
+    # in pop_front the entry may only be removed, never modified
+    pb = F.body(pop)
+    bad = [c for c in pb.calls if not c.indirect and "OccupiedEntry" in c.decl and c.decl.split("::")[-1] in ("get_mut", "into_mut", "insert", "replace_entry", "replace_key")]
+    R.ob("IM1-cache-mutators", "pop_front only reads or removes the occupied entry", not bad, True)
+    for c in bad:
+        R.violation("IM1-cache-mutators", pop + "/" + short(c.decl), "pop_front modifies the cached marker in place", c.span.loc)
+    # IM2
+    ab = F.body(add)
+    ins = [c for c in ab.calls if not c.indirect and c.decl.endswith("HashMap::<K, V, S, A>::insert") and _on_field(ab, c, "cache")]
+    push = [c for c in ab.calls if not c.indirect and c.decl.endswith("VecDeque::<T, A>::push_back") and _on_field(ab, c, "fifo_issues")]
+    ok = bool(ins) and bool(push)
+    if ok:
+        for i in ins:
+            paired = False
+            for q in push:
+                if ab.dominates(q.bb, i.bb) or ab.dominates(i.bb, q.bb):
+                    o = ab.origin(q.args[1])
+                    tk = tokens(o)
+                    same_id = o[0] == "agg" and len(o[2]) == 2 and FX.strip_sites(o[2][0]) == FX.strip_sites(ab.origin(i.args[1]))
+                    ts = o[0] == "agg" and len(o[2]) == 2 and "field:timestamp" in tokens(o[2][1]) and "param:3" in tokens(o[2][1])
+                    rets = [x for x in ab.live_blocks() if ab.term(x)[0] == "ret"]
+                    first, second = (q, i) if ab.dominates(q.bb, i.bb) else (i, q)
+                    between = T.must_pass(ab, rets, [second.bb], entry=first.bb)[0]
+                    if same_id and ts and between:
+                        paired = True
+            ok = ok and paired
+    R.ob("IM2-queue-pairing", "add_issue: cache.insert(id, marker) is paired with fifo_issues.push_back((id, marker.timestamp))", ok, True)
+    if not ok:
+        R.violation("IM2-queue-pairing", add, "a cache entry can be inserted without a queue entry carrying the same id and the marker's timestamp "
+                    "(or the reverse): eviction can no longer find it", F.loc(add))
+    # IM3
+    def cap_pred(tk, o, g):
+        return "field:cache" in tk and "field:max_entries" in tk and any(t.endswith("::len") for t in tk if t.startswith("fn:"))
+    pops = ab.calls_to(pop)
+    ok3 = False
+    why3 = "no branch comparing cache.len() with max_entries dominates the insert"
+    for g in T.guard_blocks(ab, cap_pred):
+        if not ins or not all(ab.dominates(g, i.bb) for i in ins):
+            continue
+        why3 = "the eviction is a single pop_front, not a loop: the branch on cache.len() >= max_entries is not re-evaluated after pop_front"
+        for c in pops:
+            if g in ab.reach(ab.succ[c.bb]) and c.bb in ab.reach(ab.succ[g]):
+                ok3 = True
+    R.ob("IM3-evict-loop", "add_issue: `cache.len() >= max_entries` is re-tested after every pop_front and dominates the insert", ok3, True,
+         {"rule": "IM3", "fn": add, "pop_front_calls": [c.span.loc for c in pops], "holds": ok3})
+    if not ok3:
+        R.violation("IM3-evict-loop", add, "issue cache can exceed max_entries: %s (a pop_front that hits the stale queue entry of a re-reported "
+                    "issue frees nothing)" % why3, F.loc(add))
+    # IM4
+    shrink = [c for p in (add, pop) for c in F.body(p).calls if not c.indirect and _on_field(F.body(p), c, "fifo_issues")
+              and c.decl.split("::")[-1] in ("retain", "retain_mut", "drain", "truncate", "clear")]
+    ok4 = False
+    for c in shrink:
+        bb = F.body(add)
+        if c not in bb.calls:
+            continue
+        def qpred(tk, o, g):
+            return ("field:fifo_issues" in tk and "field:max_entries" in tk) or (any(t.endswith("HashMap::<K, V, S, A>::insert") for t in tk) and "field:cache" in tk)
+        g_ok = False
+        for g in T.guard_blocks(bb, qpred):
+            if bb.dominates(g, c.bb) and [sx for sx in bb.succ[g] if c.bb not in bb.reach([sx], avoid=[g])]:
+                g_ok = True
+        ok4 = ok4 or g_ok
+    R.ob("IM4-queue-bound", "add_issue: the queue is compacted/purged under a bound on its length (or on re-insert)", ok4, True)
+    if not ok4:
+        R.violation("IM4-queue-bound", add, "the issue queue can grow without bound: stale entries of re-reported issues are only dropped when they "
+                    "reach the front, and nothing limits fifo_issues.len()", F.loc(add))
+
